@@ -18,6 +18,7 @@
 #include <AIToolbox/MDP/Algorithms/LinearProgramming.hpp>
 #include <AIToolbox/MDP/Algorithms/Utils/PolicyEvaluation.hpp>
 #include <AIToolbox/MDP/Policies/Policy.hpp>
+#include <AIToolbox/MDP/Policies/QGreedyPolicy.hpp>
 
 using namespace verif;
 namespace M = AIToolbox::MDP;
@@ -298,6 +299,187 @@ static void runAll(Rng & rng, const Gen & G, const std::string & tier, bool forc
     }
 }
 
+
+// ---- (6) solver objects reused across calls and models: v1_ / vParameter_ are the state "carried between calls" ------------
+// Every emitted line is self-contained (the driver checks it like a fresh call), so any leak of state from an earlier call
+// (moved-from v1_, a start vector of another size, a stale tolerance/horizon) shows up as a failed clause on that line.
+template <class Mod>
+static void runReuse(Rng & rng, const Mod & mod, const char * rep, const Gen & G) {
+    const size_t S = G.S, A = G.A;
+    M::Model other(S + 1 + rng.below(2), A, G.g);                 // a model of another size solved by the same object in between
+    unsigned h1 = (unsigned)rng.range(1, 5), h2 = (unsigned)rng.range(0, 5);
+    M::ValueIteration vi(h1, 0.0);
+    auto emitVI = [&](unsigned h, double tol, const Warm & w, const std::tuple<double, M::ValueFunction, M::QFunction> & out) {
+        const auto & [var, vf, q] = out;
+        Line l = head("vi", G.dyadic, rep, G); l << h << tol << w.on;
+        if (w.on) { l << (size_t)w.vf.values.size(); putVec(l, w.vf.values); l.nats(w.vf.actions); }
+        l << "|" << var; putVec(l, vf.values); l.nats(vf.actions); putMat(l, q); l.emit();
+    };
+    Warm none;
+    emitVI(h1, 0.0, none, vi(mod));                                // first call
+    (void)vi(other);                                               // different S: start vector of the previous size must not leak
+    emitVI(h1, 0.0, none, vi(mod));                                // same object, same answer
+    // setters between calls: horizon, then a start vector, then removing it again (empty = default zeros)
+    vi.setHorizon(h2);
+    emitVI(h2, 0.0, none, vi(mod));
+    Warm w; w.on = true; w.vf.values.resize(S); w.vf.actions.assign(S, 0);
+    for (size_t s = 0; s < S; ++s) w.vf.values[s] = 0.5 * (double)rng.range(-8, 8);
+    vi.setValueFunction(w.vf);
+    const bool getterOK = vi.getHorizon() == h2 && vi.getTolerance() == 0.0 && vi.getValueFunction().values.size() == (long)S;
+    emitVI(h2, 0.0, w, vi(mod));
+    (void)vi(other);                                               // the start has S entries, `other` has more: ignored there
+    emitVI(h2, 0.0, w, vi(mod));                                   // ... and still used here
+    vi.setValueFunction(M::ValueFunction{});
+    vi.setTolerance(0.25);
+    emitVI(h2, 0.25, none, vi(mod));
+    std::printf("#stat reuse_vi_calls 8\n#stat reuse_getters_%s 1\n", getterOK ? "ok" : "BAD");
+    if (!getterOK) { Line l; l << "C01" << "getter" << rep << "ValueIteration"; l.emit(); }
+    // negative tolerance is rejected (documented), and the object keeps its previous tolerance
+    bool threw = false; try { vi.setTolerance(-1.0); } catch (const std::exception &) { threw = true; }
+    { Line l; l << "C01" << "settol" << "ValueIteration" << threw << vi.getTolerance() << 0.25; l.emit(); }
+    // PolicyEvaluation object: two calls with setValues in between (exactly what PolicyIteration does)
+    AIToolbox::Matrix2D pol(S, A);
+    for (size_t s = 0; s < S; ++s) { std::vector<unsigned> c(A, 0); for (int k = 0; k < 4; ++k) c[rng.below(A)] += 1; for (size_t a = 0; a < A; ++a) pol(s, a) = 0.25 * c[a]; }
+    M::Policy policy(pol);
+    unsigned hp = (unsigned)rng.range(1, 3);
+    M::PolicyEvaluation<Mod> pe(mod, hp, 0.0);
+    auto emitPE = [&](unsigned h, const AIToolbox::Vector * warm, const std::tuple<double, M::Values, M::QFunction> & out) {
+        const auto & [var, v, q] = out;
+        Line l = head("pe", G.dyadic, rep, G); l << h << 0.0 << (warm != nullptr);
+        if (warm) { l << (size_t)warm->size(); putVec(l, *warm); }
+        putMat(l, pol); l << "|" << var; putVec(l, v); putMat(l, q); l.emit();
+    };
+    auto o1 = pe(policy); emitPE(hp, nullptr, o1);
+    AIToolbox::Vector carried = std::get<1>(o1);
+    pe.setValues(carried);                                          // warm start from the previous result
+    auto o2 = pe(policy); emitPE(hp, &carried, o2);
+    auto o3 = pe(policy); emitPE(hp, &carried, o3);                 // the parameter is not consumed by a call
+    pe.setValues(AIToolbox::Vector(S + 1));                         // wrong size: ignored, zeros
+    AIToolbox::Vector bad(S + 1); bad.setOnes();
+    pe.setValues(bad);
+    auto o4 = pe(policy); emitPE(hp, &bad, o4);
+    bool threwPE = false; try { pe.setTolerance(-0.5); } catch (const std::exception &) { threwPE = true; }
+    { Line l; l << "C01" << "settol" << "PolicyEvaluation" << threwPE << pe.getTolerance() << 0.0; l.emit(); }
+    std::printf("#stat reuse_pe_calls 4\n");
+}
+
+// ---- (7) QGreedyPolicy::getPolicy on structured Q rows (what PolicyIteration's stop test and evaluations consume) -------------
+static void runGreedyTable(Rng & rng, int fixed) {
+    size_t S = (size_t)rng.range(1, 4), A = (size_t)rng.range(1, 5);
+    if (fixed >= 0) { S = 1; A = 3; }
+    AIToolbox::Matrix2D q(S, A);
+    for (size_t s = 0; s < S; ++s) {
+        const int e = (int)rng.range(-3, 10);
+        double base = std::pow(10.0, e) * (1.0 + 0.37 * (double)rng.below(5)) * (rng.coin() ? 1.0 : -1.0);
+        if (rng.coin(1, 10)) base = 0.0;
+        if (fixed >= 0) base = fixed == 3 ? 1e8 : fixed == 1 ? 0.0 : 1.0;
+        int style = fixed >= 0 ? fixed : (int)rng.below(8);
+        const double relgap = std::fabs(base) * 1e-11;
+        std::printf("#stat gp_style%d 1\n#stat gp_mag_e%d 1\n", style, base == 0.0 ? -99 : e);
+        for (size_t a = 0; a < A; ++a) {
+            double v;
+            switch (style) {
+                case 0: v = base; break;                                                    // exact ties everywhere
+                case 1: v = base + (double)a * 0.9e-6; break;                               // ascending chain at the absolute threshold
+                case 2: v = base - (double)a * 0.9e-6; break;                               // descending chain
+                case 3: v = base + (double)a * 0.9 * relgap; break;                         // ascending chain at the relative threshold
+                case 4: v = base + ((a % 2) ? 1.0 : 0.0) * 0.5 * (relgap > 2e-6 ? relgap : 0.4e-6); break;   // two-level near tie
+                case 5: v = base + ((a % 2) ? 1.0 : 0.0) * (relgap > 1e-6 ? 3.0 * relgap : 3e-6); break;     // clearly separated two levels
+                case 6: v = base * (1.0 + 0.01 * (double)rng.range(-5, 5)); break;          // distinct
+                default: v = (a == rng.below(A) ? (0.1 + 0.2) : 0.3) * base; break;         // rounding-level tie
+            }
+            q(s, a) = v;
+        }
+        if (fixed < 0 && rng.coin(1, 3)) { // shuffle the row so the chain is not always ascending by index
+            for (size_t a = A; a > 1; --a) { size_t j = rng.below(a); std::swap(q(s, a - 1), q(s, j)); }
+        }
+    }
+    M::QGreedyPolicy p(q);
+    auto m = p.getPolicy();
+    Line l; l << "C01" << "gp" << S << A; putMat(l, q); l << "|"; putMat(l, m);
+    l.emit();
+}
+
+// ---- (8) large reward scales with near-tied optimal actions -----------------------------------------------------------------
+// |V| from 1e5 to 1e10; in every state two or three actions share a transition row and have rewards that differ at rounding level
+// ((0.1+0.2)c vs 0.3c), by a gap between equalToleranceSmall and equalToleranceGeneral*|Q| (c vs c+5e-5 at c=2.5e7), or form a
+// chain a~b~c with a!~c.  The other actions are clearly worse.  Solved by VI, PI, LP on dense, sparse and query-only models.
+static Gen genBig(Rng & rng, int fixed, int & tieStyle) {
+    Gen G; G.dyadic = false; G.den = 8;
+    G.S = (size_t)rng.range(1, 5); G.A = (size_t)rng.range(2, 4);
+    static const double gs[] = {0.5, 0.75, 0.9, 0.95};
+    G.g = gs[rng.below(4)];
+    int e = (int)rng.range(5, 10);
+    double c = std::pow(10.0, e) * (1.0 - G.g) * (rng.coin() ? 1.0 : 2.5);
+    tieStyle = (int)rng.below(4);        // 0 rounding-level, 1 gap in (tolSmall, tolGeneral*|Q|), 2 chain, 3 exact tie
+    int signStyle = (int)rng.below(3);   // 0 rewards, 1 costs, 2 mixed by state
+    if (fixed == 0) { G.S = 1; G.A = 3; G.g = 0.9; c = 1e7; tieStyle = 2; signStyle = 0; }          // chain witness (PI diverges)
+    if (fixed == 1) { G.S = 2; G.A = 2; G.g = 0.9; c = 2.5e7; tieStyle = 1; signStyle = 1; }        // c vs c+5e-5 at 2.5e7 (costs)
+    if (fixed == 2) { G.S = 3; G.A = 3; G.g = 0.9; c = 2.5e7; tieStyle = 0; signStyle = 2; }        // (0.1+0.2)c vs 0.3c
+    if (fixed == 3) { G.S = 4; G.A = 2; G.g = 0.9; c = 8e8; tieStyle = 3; signStyle = 0; }          // positive values near 8e9 (LP)
+    if (tieStyle == 2 && G.A < 3) G.A = 3;
+    const double vmag = c / (1.0 - G.g);
+    G.t.assign(G.S, std::vector<std::vector<double>>(G.A, std::vector<double>(G.S, 0.0))); G.r = G.t;
+    for (size_t s = 0; s < G.S; ++s) {
+        const double sgn = signStyle == 0 ? 1.0 : signStyle == 1 ? -1.0 : ((s % 2) ? -1.0 : 1.0);
+        static const double ks[] = {1.0, 1.25, 0.75, 1.5, 0.5};
+        const double k = fixed >= 0 ? 1.0 : ks[rng.below(5)];
+        // the tied actions: a contiguous ascending block so that chains are ascending by index
+        size_t nt = tieStyle == 2 ? 3 : (G.A >= 3 && rng.coin(1, 3) ? 3 : 2);
+        size_t first = rng.below(G.A - nt + 1);
+        std::vector<unsigned> rowT(G.S, 0), rowO(G.S, 0);
+        for (unsigned i = 0; i < 8; ++i) { rowT[rng.below(G.S)] += 1; rowO[rng.below(G.S)] += 1; }
+        if (rng.coin(1, 4)) { std::fill(rowT.begin(), rowT.end(), 0u); rowT[s] = 4; rowT[rng.below(G.S)] += 4; }   // stochastic self-loop
+        for (size_t a = 0; a < G.A; ++a) {
+            const bool tied = a >= first && a < first + nt;
+            const size_t j = a - first;
+            double r;
+            if (!tied) r = sgn * k * c - (0.1 + 0.05 * (double)rng.below(4)) * c;          // clearly worse
+            else switch (tieStyle) {
+                case 0: r = sgn * k * ((j % 2) ? 0.3 * c : (0.1 + 0.2) * c) / 0.3; break;
+                case 1: r = sgn * k * c + (double)j * (fixed == 1 ? 5e-5 : std::max(2e-6, 0.2 * 1e-11 * vmag * k)); break;
+                case 2: r = sgn * k * c + (double)j * std::max(0.9e-6, 0.9 * 1e-11 * vmag * k * (signStyle == 0 ? 1.0 : 0.5)); break;
+                default: r = sgn * k * c; break;
+            }
+            for (size_t s1 = 0; s1 < G.S; ++s1) { G.t[s][a][s1] = 0.125 * (double)(tied ? rowT[s1] : rowO[s1]); G.r[s][a][s1] = r; }
+        }
+    }
+    std::printf("#stat big 1\n#stat big_vmag_e%d 1\n#stat big_tie%d 1\n#stat big_sign%d 1\n#stat big_S%zu 1\n", e, tieStyle, signStyle, G.S);
+    return G;
+}
+
+static void runBig(Rng & rng, int fixed) {
+    int tieStyle = 0;
+    Gen G = genBig(rng, fixed, tieStyle);
+    const size_t S = G.S, A = G.A;
+    M::Model dense(S, A, G.t, G.r, G.g);
+    M::SparseModel sparse(S, A, G.t, G.r, G.g);
+    GenericModel generic{S, A, G.g, &G.t, &G.r};
+    static const double tols[] = {1e-3, 1e-4, 1e-2};
+    const double tolVI = tols[rng.below(3)], tolPI = fixed == 0 ? 1e-4 : tols[rng.below(3)];
+    Warm none;
+    unsigned h = (unsigned)rng.range(1, 6);
+    std::vector<AIToolbox::Vector> dp, vvi, vlp;
+    auto doRep = [&](const auto & mod, const char * rep) {
+        dp.push_back(runVI(mod, rep, G, false, h, 0.0, none));
+        M::ValueIteration vi(1000000, tolVI);
+        auto [var, vf, q] = vi(mod);
+        { Line l = head("vi", false, rep, G); l << 1000000u << tolVI << false << "|" << var; putVec(l, vf.values); l.nats(vf.actions); putMat(l, q); l.emit(); }
+        auto qp = runPI(mod, rep, G, 1000000, tolPI);
+        auto lr = runLP(mod, rep, G);
+        if (lr.ok && qp.allFinite()) {
+            Line l = head("agree", false, rep, G); l << tolVI << tolPI << lr.prec << "|";
+            putVec(l, vf.values); putActs(l, vf.actions); putMat(l, qp); putVec(l, lr.vf.values); putMat(l, lr.q); l.emit();
+        }
+        if (lr.ok) vlp.push_back(lr.vf.values);
+        vvi.push_back(vf.values);
+    };
+    doRep(dense, "dense"); doRep(sparse, "sparse"); doRep(generic, "generic");
+    emitXrep("vi_dp_big", false, G, dp);
+    emitXrep("vi_tol_big", false, G, vvi);
+    if (vlp.size() == vvi.size()) emitXrep("lp_big", false, G, vlp);
+}
+
 long verif::verif_ncases(const std::string & tier) { return tier == "thorough" ? 800 : 160; }
 
 // hand-written low-index cases
@@ -322,9 +504,19 @@ static Gen fixedCase(long idx) {
 
 void verif::verif_case(Rng & rng, long idx, const std::string & tier) {
     if (idx < 3) { Gen G = fixedCase(idx); runAll(rng, G, tier, idx == 2); return; }
+    if (idx < 7) { runBig(rng, (int)idx - 3); return; }                       // fixed large-scale near-tie witnesses
+    if (idx < 10) { runGreedyTable(rng, idx == 7 ? 1 : idx == 8 ? 3 : 2); return; }   // fixed greedy rows: chains at both thresholds
+    if (idx % 8 == 5) { runBig(rng, -1); for (int k = 0; k < 6; ++k) runGreedyTable(rng, -1); return; }
     const bool ugly = (idx % 4 == 3);
     Gen G = genMDP(rng, tier, ugly);
     runAll(rng, G, tier);
+    if (G.dyadic && idx % 2 == 0) {
+        M::Model dense(G.S, G.A, G.t, G.r, G.g);
+        M::SparseModel sparse(G.S, G.A, G.t, G.r, G.g);
+        GenericModel generic{G.S, G.A, G.g, &G.t, &G.r};
+        runReuse(rng, dense, "dense", G); runReuse(rng, generic, "generic", G);
+        if (idx % 4 == 0) runReuse(rng, sparse, "sparse", G);
+    }
 }
 
 VERIF_MAIN
